@@ -442,12 +442,15 @@ func (c *Classifier) multipleMatch(unknown string) *pq.Queue {
 	wg.Add(len(kvals))
 	for _, known := range kvals {
 		go func(known *knownValue) {
+			// The search set is built lazily on first use. Check and build it
+			// under the lock: concurrent MultipleMatch calls share the known
+			// value, and an unsynchronised read of known.set races with the
+			// assignment made by another call.
+			c.muValues.Lock()
 			if known.set == nil {
-				k := searchset.New(known.normalizedValue, searchset.DefaultGranularity)
-				c.muValues.Lock()
-				c.values[known.key].set = k
-				c.muValues.Unlock()
+				known.set = searchset.New(known.normalizedValue, searchset.DefaultGranularity)
 			}
+			c.muValues.Unlock()
 			m.findMatches(known)
 			wg.Done()
 		}(known)
